@@ -616,7 +616,45 @@ def rule_i(ctx: Ctx) -> None:
     ctx.min_instances("variable_rewinds", n, 2)
 
 
-RULES = [rule_a, rule_b, rule_c, rule_d, rule_e, rule_f, rule_g, rule_h, rule_i]
+def rule_j(ctx: Ctx) -> None:
+    ctx.rule("C13.j", "nested scans do not leak their start: _scan() sets self._start for every token it scans, so a method that runs a nested self._scan(...) and afterwards "
+                      "emits a token of its own re-assigns self._start before that _add — otherwise the token carries the span of the last inner token")
+    tc = ctx.repo.cls(TC, "TokenizerCore")
+    n = 0
+    for name, md in tc.methods().items():
+        if name in ("tokenize", "_scan"):
+            continue
+        nested = [c for c in walk_no_nested(md) if isinstance(c, ast.Call) and call_name(c) == "self._scan"]
+        for sc in nested:
+            n += 1
+            where = f"{tc.key}.{name}"
+            st = tc.module.enclosing_stmt(sc)
+            blk = tc.module.parent(st)
+            seq = next((getattr(blk, f_) for f_ in ("body", "orelse") if isinstance(getattr(blk, f_, None), list) and st in getattr(blk, f_)), [])
+            later = seq[seq.index(st) + 1:] if st in seq else []
+            adds = [(i, x) for i, l_ in enumerate(later) for x in ast.walk(l_) if isinstance(x, ast.Call) and call_name(x) == "self._add"]
+            if not adds:
+                ctx.ok(f"{where}|nested scan emits nothing of its own", None)
+                continue
+            first_add_stmt = later[adds[0][0]]
+            def assigns_start(node: ast.AST, before: ast.AST | None = None) -> bool:
+                for x in ast.walk(node):
+                    if isinstance(x, ast.Assign) and any(norm(t_) == "self._start" for t_ in x.targets):
+                        if before is None or x.lineno < before.lineno:
+                            return True
+                return False
+            ok = any(assigns_start(l_) for l_ in later[: adds[0][0]]) or assigns_start(first_add_stmt, adds[0][1])
+            if ok:
+                ctx.ok(f"{where}|self._start re-assigned between the nested scan and {norm(adds[0][1], 40)}", None)
+            else:
+                ctx.fail(tc.module, adds[0][1], where, adds[0][1],
+                         "this token is emitted after a nested self._scan(...) without re-assigning self._start: its start/end are those of the last token of the nested scan, "
+                         "not of the text it carries")
+    ctx.count("nested_scan_sites", n)
+    ctx.min_instances("nested_scan_sites", n, 1)
+
+
+RULES = [rule_a, rule_b, rule_c, rule_d, rule_e, rule_f, rule_g, rule_h, rule_i, rule_j]
 EXPLANATION = (
     "Representation invariants of the scanner cursor checked symbolically on every block that writes _current (linear "
     "normal form of offsets with local resolution, so the str.find and alnum fast paths are covered), the token stamp, "
